@@ -2,7 +2,7 @@
 import os, glob, json, re
 import vlib
 from vlib import Check, Broken, tlc, tlc_must_pass
-from checks.trees import parse_summary, handle_crash, offending_event
+from checks.trees import parse_summary, handle_crash, offending_event, report_mismatches
 
 
 def run(pid, tier, replay=None):
@@ -30,8 +30,9 @@ def run(pid, tier, replay=None):
         # both node layouts: tag packed into the parent pointer, and separate parent / tag fields (small-pointer targets)
         exe_s = vlib.cc_build(sc.path("tree_split_" + kind), [os.path.join(vlib.HARNESS, "tree_h.c")] + vlib.repo_src(src), sc, defs=tuple(defs) + ("SPLIT_LAYOUT", "A_SIZE_POINTER=1"))
         for lay, ex in (("packed", exe), ("split", exe_s)):
-            r = vlib.run_harness([ex, "iter", out, sc.path("it-%s-%s" % (kind, lay)), "7", str(N)], timeout=3000)
+            r = vlib.run_harness([ex, "iter", out, sc.path("it-%s-%s" % (kind, lay)), "7", str(N)], timeout=900)
             summ = parse_summary(r)
+            report_mismatches(ck, r, "%s-%s:" % (kind, lay))
             if r.returncode != 0 or summ is None:
                 handle_crash(ck, r, "iterate-%s%s" % (kind, "" if lay == "packed" else "-split-layout"))
             if summ:
